@@ -81,7 +81,49 @@ def run_for_property(prop):
     return out
 
 
+def refactors(argv):
+    """Behaviour-preserving edits (mutants/refactors.json): every check must stay silent."""
+    with open(os.path.join(fw.VERIF, "mutants", "refactors.json")) as fh:
+        rman = json.load(fh)["refactors"]
+    only = set(a for a in argv if not a.startswith("-"))
+    props = all_props()
+    jobs = []
+    for name, m in sorted(rman.items()):
+        if only and name not in only:
+            continue
+        jobs.append((name, os.path.join(fw.VERIF, m["patch"]), props, 0))
+    workers = min(8, max(1, len(jobs)))
+    jobs = [(a, b, c, i % workers) for i, (a, b, c, _) in enumerate(jobs)]
+    by_slot = {}
+    for j in jobs:
+        by_slot.setdefault(j[3], []).append(j)
+    os.makedirs(SCRATCH_ROOT, exist_ok=True)
+    rc = 0
+    quiet = 0
+    with ProcessPoolExecutor(max_workers=workers) as ex:
+        for res in ex.map(_run_slot, list(by_slot.values())):
+            for name, r in res:
+                if "error" in r:
+                    print("ERROR  %-40s %s" % (name, r["error"]))
+                    rc = 1
+                    continue
+                alarms = [(prop, rule, key, d) for prop, vs in r["violations"].items() for rule, key, d in vs]
+                if alarms:
+                    rc = 1
+                    print("FALSE-ALARM %-36s %d" % (name, len(alarms)))
+                    for prop, rule, key, d in alarms[:12]:
+                        print("          %s %s %s: %s" % (prop, rule, key, d[:160]))
+                else:
+                    quiet += 1
+                    print("SILENT %-40s [%.0fs]" % (name, r["wall_s"]))
+    print("refactors: %d/%d silent" % (quiet, len(jobs)))
+    shutil.rmtree(SCRATCH_ROOT, ignore_errors=True)
+    return rc
+
+
 def main(argv):
+    if argv and argv[0] == "refactors":
+        return refactors(argv[1:])
     man = load_manifest()
     only = set(a for a in argv if not a.startswith("-"))
     verbose = "-v" in argv
